@@ -227,6 +227,22 @@ class Gen:
                 return [["block", ["def", x, self.int_expr(sc)], ["opset", x, "add", ["i", "1"]], ["expr", ["call", ["v", "log"], [["v", x]], "-"]]],
                         ["expr", ["call", ["v", "log"], [["v", x]], "-"]]]
             return [["block"] + self.block(sc, depth + 1, in_loop, in_func)]
+        if k == 21:
+            # a variadic function changes its rest array; the caller's spread array must not change
+            self.count("variadic-mutates-rest")
+            f, arr = self.fresh("vf"), self.fresh("va")
+            nfix = r.randrange(0, 3)
+            ps = [self.fresh("p") for _ in range(nfix)] + [self.fresh("r")]
+            rest = ps[-1]
+            body = [["if", ["bin", "lt", ["i", "0"], ["len", ["v", rest]]], [["idxset", ["v", rest], ["i", "0"], ["i", "99"]]], []],
+                    ["ret", ["len", ["v", rest]]]]
+            n = r.randrange(0, 4)
+            explicit = r.randrange(0, nfix + 2)
+            out = [["def", f, ["func", ps, "1", body]], ["def", arr, ["arr"] + [self.int_expr(sc) for _ in range(n)]]]
+            if explicit + n >= nfix:
+                out.append(["expr", ["call", ["v", "log"], [["call", ["v", f], [self.int_expr(sc) for _ in range(explicit)], ["v", arr]]], "-"]])
+            cur[arr] = "arr:%d" % n
+            return out
         if k == 20:
             fns = self.visible(sc, lambda t: t.startswith("fn:"))
             if fns: self.count("call-stmt"); return [["expr", self.call_expr(sc, r.choice(fns), 0)]]
